@@ -122,8 +122,9 @@ def step (args : List String) : String :=
         let shown := match sortStrings classes with
           | [x] => x
           | xs => "(" ++ "|".intercalate xs ++ ")"
-        s!"valid=0 site={shown} start={st}"
-      | none => s!"valid=1 site=- start={if loc then "ret0" else "skipped"}"
+        -- `restart`: the same Start on an application context that an earlier, valid run has left marked valid
+        s!"valid=0 site={shown} start={st} restart={st}"
+      | none => s!"valid=1 site=- start={if loc then "ret0" else "skipped"} restart=-"
   | _ => "bad-op"
 
 end Driver.ConfigD
